@@ -225,12 +225,22 @@ func verifyCertificateSignature(
 
 	switch pubKey := certificate.PublicKey.(type) {
 	case ed25519.PublicKey:
+		if signatureAlgorithm != signature.Ed25519 {
+			// The claimed scheme must be one the certificate's key can produce.
+			return dtlserrors.ErrKeySignatureMismatch
+		}
 		if ok := ed25519.Verify(pubKey, message, remoteKeySignature); !ok {
 			return dtlserrors.ErrKeySignatureMismatch
 		}
 
 		return nil
 	case *ecdsa.PublicKey:
+		if signatureAlgorithm != signature.ECDSA || len(hashAlgorithm.Digest(message)) == 0 {
+			// An ECDSA key only signs under an ECDSA scheme with a real prehash. A
+			// scheme without one (Ed25519) would leave an empty digest, for which a
+			// valid-looking signature can be computed from the public key alone.
+			return dtlserrors.ErrKeySignatureMismatch
+		}
 		ecdsaSig := &ecdsaSignature{}
 		if _, err := asn1.Unmarshal(remoteKeySignature, ecdsaSig); err != nil {
 			return err
@@ -245,6 +255,9 @@ func verifyCertificateSignature(
 
 		return nil
 	case *rsa.PublicKey:
+		if signatureAlgorithm != signature.RSA && !signatureAlgorithm.IsPSS() {
+			return dtlserrors.ErrKeySignatureMismatch
+		}
 		hashed := hashAlgorithm.Digest(message)
 
 		// Use RSA-PSS verification if the signature algorithm is PSS
